@@ -80,6 +80,11 @@ func validatorRejects(p *core.Prog, fi *core.FuncInfo, depth int) rejectTable {
 			if tv.Value == nil {
 				return true
 			}
+			isIndex := strings.HasPrefix(fn.Name(), "Index")
+			if okEff, why := matchEffective(info, fi.Decl, call, isIndex); !okEff {
+				IneffectiveTests[fi.Obj] = append(IneffectiveTests[fi.Obj], fmt.Sprintf("%s at %s does not protect: %s", types.ExprString(call), p.Pos(call.Pos()), why))
+				return true
+			}
 			switch fn.Name() {
 			case "ContainsAny", "IndexAny":
 				if tv.Value.Kind() == constant.String {
@@ -99,9 +104,21 @@ func validatorRejects(p *core.Prog, fi *core.FuncInfo, depth int) rejectTable {
 		// helper(x): whatever the helper rejects in its first parameter
 		if cfi := p.Info(fn); cfi != nil && cfi != fi {
 			sub := validatorRejects(p, cfi, depth+1)
+			if len(sub["param#0"]) > 0 {
+				// a Boolean helper: its answer must in turn make this function refuse
+				if bs, ok := fn.Type().(*types.Signature); ok && bs.Results().Len() == 1 {
+					if b, ok := bs.Results().At(0).Type().Underlying().(*types.Basic); ok && b.Kind() == types.Bool {
+						if okEff, why := matchEffective(info, fi.Decl, call, false); !okEff {
+							IneffectiveTests[fi.Obj] = append(IneffectiveTests[fi.Obj], fmt.Sprintf("%s at %s does not protect: %s", types.ExprString(call), p.Pos(call.Pos()), why))
+							return true
+						}
+					}
+				}
+			}
 			for b := range sub["param#0"] {
 				rt.add(in, string([]byte{b}))
 			}
+			IneffectiveTests[fi.Obj] = append(IneffectiveTests[fi.Obj], IneffectiveTests[cfi.Obj]...)
 		}
 		return true
 	})
@@ -218,8 +235,12 @@ func c16obligations(p *core.Prog, res *core.Result, kc *keyCodec, fi *core.FuncI
 					if val != nil {
 						vn = core.FuncKey(val.Obj)
 					}
-					res.Bad(rule, key, p.Pos(bc.Pos()), fmt.Sprintf("%s becomes component %q of the %q-separated key built by %s at %s, but its validator %s does not reject values containing the separator: such a value is accepted, stored, and then parsed back as different components (another id/label appears, the edge-type byte is read from the wrong component)",
-						what, comp.Name, sep, kb.FI.Obj.Name(), p.Pos(bc.Pos()), vn))
+					note := ""
+					if val != nil && len(IneffectiveTests[val.Obj]) > 0 {
+						note = " [" + strings.Join(IneffectiveTests[val.Obj], "; ") + "]"
+					}
+					res.Bad(rule, key, p.Pos(bc.Pos()), fmt.Sprintf("%s becomes component %q of the %q-separated key built by %s at %s, but its validator %s does not reject values containing the separator: such a value is accepted, stored, and then parsed back as different components (another id/label appears, the edge-type byte is read from the wrong component)%s",
+						what, comp.Name, sep, kb.FI.Obj.Name(), p.Pos(bc.Pos()), vn, note))
 				default:
 					res.Bad(rule, key, p.Pos(bc.Pos()), fmt.Sprintf("%s becomes a key component at %s on a path where %s has not been checked", what, p.Pos(bc.Pos()), event), fl.TraceTo(b)...)
 				}
@@ -282,6 +303,96 @@ func c16(p *core.Prog, res *core.Result) {
 	}
 	c16varlen(p, res, ki)
 	c16paths(p, res)
+	res.Rule("K5", "a string-prefix test that guards an index/store mutation uses a separator-terminated prefix", 0)
+	n5 := 0
+	for _, fi := range p.AllDecls() {
+		rel := core.RelPkg(fi.Pkg.PkgPath)
+		if fi.Decl.Body == nil || (rel != "kvgraph" && rel != "kvindex") || strings.HasSuffix(p.Fset.Position(fi.Decl.Pos()).Filename, "_test.go") {
+			continue
+		}
+		n5 += c16prefixTests(p, res, fi, "K5")
+	}
+	if n5 == 0 {
+		res.OKTrivial("K5", "kvgraph+kvindex|no guarded prefix test", "-", "no strings.HasPrefix test guards a registry or store mutation on the current tree (names are compared component-wise)")
+	}
+}
+
+var c16mutators = map[string]bool{"RemoveField": true, "AddField": true, "Delete": true, "DeletePrefix": true, "Set": true, "RemoveDoc": true}
+
+// terminatedPrefix: the expression certainly ends with the '.' separator.
+func terminatedPrefix(info *types.Info, defs map[types.Object]ast.Expr, e ast.Expr, depth int) bool {
+	if depth > 4 {
+		return false
+	}
+	e = ast.Unparen(e)
+	if tv, ok := info.Types[e]; ok && tv.Value != nil && tv.Value.Kind() == constant.String {
+		return strings.HasSuffix(constant.StringVal(tv.Value), ".")
+	}
+	switch x := e.(type) {
+	case *ast.BinaryExpr:
+		return terminatedPrefix(info, defs, x.Y, depth+1)
+	case *ast.CallExpr:
+		if fn := core.CalleeFunc(info, x); fn != nil && fn.Pkg() != nil && fn.Pkg().Path() == "fmt" && fn.Name() == "Sprintf" && len(x.Args) > 0 {
+			if tv, ok := info.Types[x.Args[0]]; ok && tv.Value != nil && tv.Value.Kind() == constant.String {
+				return strings.HasSuffix(constant.StringVal(tv.Value), ".")
+			}
+		}
+	case *ast.Ident:
+		if d, ok := defs[info.Uses[x]]; ok && d != nil {
+			return terminatedPrefix(info, defs, d, depth+1)
+		}
+	}
+	return false
+}
+
+// c16prefixTests: `if strings.HasPrefix(name, p) { …mutation… }` needs a terminated p.
+func c16prefixTests(p *core.Prog, res *core.Result, fi *core.FuncInfo, rule string) int {
+	info := fi.Pkg.TypesInfo
+	defs := localDefs(info, fi.Decl.Body)
+	fkey := core.FuncKey(fi.Obj)
+	n := 0
+	ast.Inspect(fi.Decl.Body, func(x ast.Node) bool {
+		is, ok := x.(*ast.IfStmt)
+		if !ok {
+			return true
+		}
+		var test *ast.CallExpr
+		ast.Inspect(is.Cond, func(y ast.Node) bool {
+			if c, ok := y.(*ast.CallExpr); ok {
+				if fn := core.CalleeFunc(info, c); fn != nil && fn.Pkg() != nil && fn.Pkg().Path() == "strings" && fn.Name() == "HasPrefix" && len(c.Args) == 2 {
+					test = c
+				}
+			}
+			return true
+		})
+		if test == nil {
+			return true
+		}
+		var mut *ast.CallExpr
+		ast.Inspect(is.Body, func(y ast.Node) bool {
+			if c, ok := y.(*ast.CallExpr); ok && mut == nil {
+				if sel, ok := c.Fun.(*ast.SelectorExpr); ok && c16mutators[sel.Sel.Name] {
+					if fn := core.CalleeFunc(info, c); fn != nil && fn.Pkg() != nil && (core.InRepo(fn) || strings.HasPrefix(fn.Pkg().Path(), core.SelfMod)) {
+						mut = c
+					}
+				}
+			}
+			return true
+		})
+		if mut == nil {
+			return true
+		}
+		n++
+		res.Fn(fkey)
+		key := fmt.Sprintf("%s|HasPrefix(%s)", fkey, types.ExprString(test.Args[1]))
+		if terminatedPrefix(info, defs, test.Args[1], 0) {
+			res.OK(rule, key, p.Pos(test.Pos()), "the prefix ends with the '.' separator")
+		} else {
+			res.Bad(rule, key, p.Pos(test.Pos()), fmt.Sprintf("%s: %s decides %s, but the prefix %s does not end with the name separator: a name that merely starts with the same characters matches too (deleting graph \"proj\" also removes the indices of graph \"proj2\")", fkey, types.ExprString(test), types.ExprString(mut.Fun), types.ExprString(test.Args[1])))
+		}
+		return true
+	})
+	return n
 }
 
 // c16varlen: a variable-length []byte component that is followed by further
@@ -527,6 +638,9 @@ func c16selftest(st *core.Prog, res *core.Result) {
 		{"GoodValidate", "param#0", 0, true}, {"GoodValidate", "param#0", '.', true},
 		{"WeakValidate", "param#0", 0, false}, {"WeakValidate", "param#0", '.', true},
 		{"T.Validate", "recv.ID", 0, true}, {"T.Validate", "recv.Label", 0, false},
+		{"IndexGoodValidate", "param#0", 0, true}, {"IndexOffByOneValidate", "param#0", 0, false},
+		{"HelperGoodValidate", "param#0", 0, true}, {"HelperOffByOneValidate", "param#0", 0, false},
+		{"InvertedValidate", "param#0", 0, false}, {"GuardedValidate", "param#0", 0, false}, {"VarIndexValidate", "param#0", '.', false},
 	} {
 		got := validatorRejects(st, fi(c.fn), 0)[c.in][c.b]
 		if got != c.want {
@@ -536,4 +650,31 @@ func c16selftest(st *core.Prog, res *core.Result) {
 		}
 	}
 	_ = sort.Strings
+	for _, name := range []string{"OkPrefixTerminated", "BadPrefixBare"} {
+		f := fi(name)
+		if f == nil {
+			res.Fail("self-test function %s missing", name)
+			continue
+		}
+		tmp := core.NewResult("C16", "self")
+		c16prefixTests(st, tmp, f, "K5")
+		got := core.Discharged
+		if len(tmp.Obls) == 0 {
+			got = core.Unresolved
+		}
+		for _, o := range tmp.Obls {
+			if o.Status == core.Violated {
+				got = core.Violated
+			}
+		}
+		want := core.Discharged
+		if strings.HasPrefix(name, "Bad") {
+			want = core.Violated
+		}
+		if got != want {
+			res.Fail("self-test %s: prefix rule gave %s, expected %s", name, got, want)
+		} else {
+			res.OKTrivial("SELF", "selftest|c16."+name, "-", "prefix rule gives "+string(got)+" as expected")
+		}
+	}
 }
